@@ -17,9 +17,7 @@ rule = ("scripts = 'm frags <hex>,<hex>,..' (every fragment its own exact-size m
         "1 empty fragment) x {len; chr/rchr of each letter; str/rstr/fcn/rfcn "
         "with 3 sets; tok with 16 (tok,com,esc) combinations; cpy with every length -1..len+1 into 4 target layouts; "
         "read of every length 0..len+1 with and without target; argv/args with 5 separators; append}; both tiers add a seeded "
-        "sample of length 4 with 2 empty fragments, thorough also of length 5; scripts that enter the keyed region of the "
-        "known finding quote-open-at-base-end (decided by the model, Msg.quoteSplit) are removed from the generated streams, "
-        "two minimal ones are replayed from corpus/C17; stream 2 = quoted/escaped/whitespace argument "
+        "sample of length 4 with 2 empty fragments, thorough also of length 5;  stream 2 = quoted/escaped/whitespace argument "
         "texts cut at every pair of positions, and every wrapped queue of capacity <= 4 through mpt_message_get; "
         "stream 3 = random op histories on random cuts of longer texts, some malformed ops. "
         "non-trivial = a script in which the cursor had at least 2 non-empty fragments and an op crossed a fragment "
@@ -117,7 +115,7 @@ def groups(frags, n):
         if s == "20":
             continue
         av += [f, "m argv " + s, "m read 1", "m argv " + s, "m len", f, "m args " + s]
-    # the white-space separator gets scripts of its own (the known finding lives there, see `drop_keyed`)
+    # the white-space separator (quote scanner) gets scripts of its own
     return [("s", search), ("t", tok), ("c", cpy), ("r", rd), ("a", av),
             ("a20", [f, "m argv 20", "m read 1", "m argv 20", "m len"]), ("A20", [f, "m args 20"])]
 
@@ -130,21 +128,8 @@ ARGTEXTS = [b"'a b' c", b'"a\\" b" c', b"  ab  cd ", b"a\\'' b' c", b"\t\n x'y z
             b"#x\n a #y", b" '", b"''  ", b"a\\", b"\\'a 'b"]
 
 
-def drop_keyed(out):
-    """Scripts that enter the keyed region of the known finding `quote-open-at-base-end` are taken out of the
-    generated streams (two minimal ones are kept in corpus/C17 and replayed on every run, so the finding stays
-    visible).  The region is decided by the model itself: its driver marks such calls with `Q qsplit=1`
-    (Msg.quoteSplit / Msg.argsSplit, the same definitions the theorems `argv_flat_partial`/`args_flat_partial`
-    exclude).  Without this every one of the ~10^3 affected scripts would be shrunk and re-reported."""
-    exe = build.model_exe(area)
-    if not os.path.exists(exe):
-        return out
-    res = _run.run_batch([exe], [s for _, s in out])
-    return [(name, s) for (name, s), (lines, _f) in zip(out, res) if not any("| Q qsplit=1" in ln for ln in lines)]
-
-
 def scripts(tier, seed, scale=1):
-    return drop_keyed(_scripts(tier, seed, scale))
+    return _scripts(tier, seed, scale)
 
 
 def _scripts(tier, seed, scale=1):
@@ -306,14 +291,5 @@ def tally(chk, script, c_lines):
 
 
 def finding_key(script, res):
-    """kind:op, refined for the one known cause: the quote scanner of mpt_message_argv restarts at the
-    boundary between the base fragment and the continuation.  The model flags exactly those calls
-    (extra section `Q qsplit=1`: white-space separator, the scan of the base fragment ends inside a quote or
-    behind a backslash, and bytes follow in the continuation)."""
     op = (res.get("op") or "").split()
-    name = op[1] if len(op) > 1 else "?"
-    key = "%s:%s" % (res["kind"], name)
-    if res["kind"] == "c_ne_s" and name in ("argv", "args"):
-        if _run.sections(res.get("model") or "").get("Q") == "qsplit=1":
-            key += ":quote-open-at-base-end"
-    return key
+    return "%s:%s" % (res["kind"], op[1] if len(op) > 1 else "?")
